@@ -175,6 +175,37 @@ mut("M71", "conn.go", "		c.writeResponse(502, EnhancedCode{5, 5, 1}, \"Missing R
 mut("M72", "conn.go", "		err := c.Session().Data(r)\n		r.limited = false\n		io.Copy(ioutil.Discard, r) // Make sure all the data has been consumed\n		for _, rcpt := range c.recipients {", "		err := c.Session().Data(r)\n		io.Copy(ioutil.Discard, r) // Make sure all the data has been consumed\n		for _, rcpt := range c.recipients {", ["C02"], "handleDataLMTP/post:resync", note="regression of fix 41a5def (fallback path)")
 mut("M73", "conn.go", "			status.fillRemaining(lmtpSession.LMTPData(r, status))\n			r.limited = false\n", "			status.fillRemaining(lmtpSession.LMTPData(r, status))\n", ["C02"], "drained", note="regression of fix 41a5def (goroutine path)")
 mut("M21c", "conn.go", "				code, enchCode, msg := dataErrorToStatus(<-c.bdatStatus.status[i])\n				c.writeResponse(code, enchCode, \"<\"+rcpt+\"> \"+msg)", "				code, enchCode, msg := dataErrorToStatus(<-c.bdatStatus.status[len(c.recipients)-1-i])\n				c.writeResponse(code, enchCode, \"<\"+rcpt+\"> \"+msg)", ["C13"], "", note="BDAT LMTP emission loop receives in reverse order")
+mut("P9r", "conn.go", """			if ch < 0x10 {
+				// hexchar is "+" followed by exactly two hex digits
+				out.WriteRune('0')
+			}
+""", "", ["C14"], "hexchar-is-plus-and-two-digits", note="regression of fix 2797894 (one-digit hexchar)")
+mut("P10r", "conn.go", """		case ch >= '!' && ch <= '~' && ch != '+' && ch != '=' && ch != '\\\\':
+			// printable non-space US-ASCII except '+', '=' and '\\'
+			out.WriteRune(ch)
+		case ch <= '\\x7F':""", """		case ch >= '!' && ch <= '~' && ch != '+' && ch != '=':
+			out.WriteRune(ch)
+		case ch <= '\\x7F':""", ["C14"], "other-ascii-escaped", note="regression of fix 6091a1d (unitext backslash)")
+mut("M54", "conn.go", """func encodeXtext(raw string) string {
+	var out strings.Builder
+	out.Grow(len(raw))
+
+	for _, ch := range raw {
+		switch {
+		case ch >= '!' && ch <= '~' && ch != '+' && ch != '=':""", """func encodeXtext(raw string) string {
+	var out strings.Builder
+	out.Grow(len(raw))
+
+	for _, ch := range raw {
+		switch {
+		case ch >= ' ' && ch <= '~' && ch != '+' && ch != '=':""", ["C14", "C15"], "encodeXtext", note="xtext: SP emitted raw (breaks the parameter token)")
+mut("M46", "conn.go", "		case ch <= '\\x7F':\n			// other ASCII: CTLs, space and specials", "		case ch < '\\x7F':\n			// other ASCII: CTLs, space and specials", ["C14"], "encodeUTF8AddrUnitext", note="unitext: DEL emitted raw")
+mut("M07b", "conn.go", "	if _, isTLS := c.TLSConnectionState(); isTLS && c.server.EnableREQUIRETLS {", "	if c.server.EnableREQUIRETLS {", ["C12"], "requiretls-only-under-tls", note="REQUIRETLS advertised regardless of TLS")
+mut("M74", "conn.go", "			if !c.server.EnableREQUIRETLS {\n				c.writeResponse(504, EnhancedCode{5, 5, 4}, \"REQUIRETLS is not implemented\")\n				return\n			}\n", "", ["C12"], "only-enabled-extensions", note="REQUIRETLS parameter accepted although the extension is disabled")
+mut("M75", "conn.go", "		caps = append(caps, fmt.Sprintf(\"LIMITS RCPTMAX=%v\", c.server.MaxRecipients))", "		caps = append(caps, fmt.Sprintf(\"LIMITS RCPTMAX=%v\", c.server.MaxMessageBytes))", ["C12"], "configured-values-advertised", note="RCPTMAX advertised with the wrong configuration value")
+mut("M36", "conn.go", "		c.writeResponse(452, EnhancedCode{4, 5, 3}, fmt.Sprintf(\"Maximum limit of %v recipients reached\", c.server.MaxRecipients))", "		c.writeResponse(452, EnhancedCode{5, 5, 3}, fmt.Sprintf(\"Maximum limit of %v recipients reached\", c.server.MaxRecipients))", ["C04"], "enhanced-code-of-the-same-class", note="452 sent with enhanced code 5.5.3")
+mut("M19", "conn.go", "			enhCode = EnhancedCode{cat, 0, 0}", "			enhCode = EnhancedCode{5, 0, 0}", ["C17"], "unset-enhanced-code-defaults-to-class", note="unset enhanced code always 5.0.0")
+mut("M43", "conn.go", "		c.writeResponse(code, enhCode, err.Error())\n	}\n}", "		c.writeResponse(451, enhCode, err.Error())\n	}\n}", ["C17"], "generic-code", note="writeError ignores the call site's generic code")
 # ---------------------------------------------------------------- refactorings (must pass)
 mut("R01", "data.go", "func (r *dataReader) Read(b []byte) (n int, err error) {", "func (r *dataReader) Read(b []byte) (n int, err error) {\n	_ = 0", ["C01", "C02", "C06", "C07"], kind="refactor", note="no-op statement inserted")
 mut("R02", "data.go", """		if r.n <= 0 {
